@@ -121,6 +121,7 @@ class Kernel(object):
             cp = self.next_pid
             self.next_pid += 1
             self.procs[cp] = SimProc(cp, pid, {"term": b.get("kid_term", ["obey", 0]), "kill_lat": 0})
+        self.now += b.get("spawn_ms", 0)          # the fork/exec takes time (Process.started was read before it)
         return pid
 
     def kill(self, pid, sig, via=""):
